@@ -5,13 +5,19 @@ import (
 	"go/token"
 	"os"
 	"strings"
+	"sync"
 
 	"golang.org/x/tools/go/ssa"
 )
 
-var fileCache = map[string][]byte{}
+var (
+	fileCache   = map[string][]byte{}
+	fileCacheMu sync.Mutex
+)
 
 func (u *Unit) fileText(name string) []byte {
+	fileCacheMu.Lock()
+	defer fileCacheMu.Unlock()
 	if b, ok := fileCache[name]; ok {
 		return b
 	}
